@@ -49,6 +49,7 @@ pub fn tokens(xml: &str) -> Option<Vec<Tok>> {
                 name: String::from_utf8_lossy(n).into_owned(),
             }),
             Obs::Err(_) => return None,
+            Obs::Raw(_) => {}
         }
     }
     Some(out)
